@@ -156,7 +156,9 @@ ATTRS = ["a", "b", "x", "x_1", "x1", "a_b", "sink", "data", "reg", "wire", "repe
          # names the memory generator gives its own address / data registers (<memory>_adr<port>, <memory>_dat<port>)
          "mem_adr0", "mem_dat0", "mem_1_adr0", "storage_dat0",
          # names the clock domains give their own signals
-         "sys_clk", "sys_rst", "por_clk", "sys_clk_1"]
+         "sys_clk", "sys_rst", "por_clk", "sys_clk_1",
+         # names that differ from others in case only (distinct identifiers in Verilog)
+         "X", "A", "Data", "A_b"]
 
 
 def st_modules(tier):
@@ -193,7 +195,7 @@ def st_modules(tier):
                 # Migen: submodules with local clock domains cannot be anonymous
                 if sub["attr"] is None and classes[sub["cls"]]["cd"]:
                     sub["attr"] = "sub%d" % k
-        return {"classes": classes, "pre": draw(st.integers(0, 2))}
+        return {"classes": classes, "pre": draw(st.integers(0, 2)), "sub_ios": draw(st.integers(0, 3)) == 0}
     return mods()
 
 
@@ -301,6 +303,12 @@ def _convert(case, pre):
         # user signals of the top level that are called like clock-domain signals are ports as well (ports are named first)
         if isinstance(getattr(top, an, None), Signal):
             ios.add(getattr(top, an))
+    if case.get("sub_ios"):
+        # the i / o signals of the first-level sub-modules are ports as well: equal leaf names (i, o) on several ports
+        for sm_name, sm in getattr(top, "_submodules", []):
+            for an in ("i", "o"):
+                if isinstance(getattr(sm, an, None), Signal):
+                    ios.add(getattr(sm, an))
     out = convert(top, ios=ios, name="top", attr_translate=XLATE)
     return out
 
